@@ -105,6 +105,14 @@ func C17(blk *hist.Block) []Finding {
 				touched = true
 			}
 		}
+		// ... nor a native transaction (those blocks are left to the exact accounting of simpleBlock)
+		for _, o := range blk.Txs {
+			if o.Kind != "OLVM" && o.Call.Code == 0 {
+				if pj, _ := json.Marshal(Payload(o.Bytes)); strings.Contains(string(pj), from) {
+					touched = true
+				}
+			}
+		}
 		if touched {
 			continue
 		}
@@ -116,6 +124,19 @@ func C17(blk *hist.Block) []Finding {
 			continue
 		}
 		fee := txFee(t)
+		if c := t.Meta["payout"]; c != "" {
+			// the called contract hands its whole balance to the caller: it ends at zero, the caller gains that much less the fee
+			had := amountAt(blk.Prev, "b_"+c+"_OLT")
+			if left := amountAt(blk.Cur, "b_"+c+"_OLT"); left.Sign() != 0 || dS.Cmp(new(big.Int).Sub(had, fee)) != 0 {
+				if len(olvm) == 1 {
+					out = append(out, Finding{"C17", "C17/contract-payout/not-one-ledger", fmt.Sprintf("block %d: contract %s held %s and paid out everything to %s: it holds %s afterwards, the caller's balance moved by %s (fee %s)", blk.H, c, had, from, left, dS, fee)})
+				}
+			}
+			if cn != pn+1 {
+				out = append(out, Finding{"C17", "C17/nonce/not-raised-by-one", fmt.Sprintf("block %d: executed OLVM transaction of %s (nonce %s) moved its nonce from %d to %d", blk.H, from, t.Meta["nonce"], pn, cn)})
+			}
+			continue
+		}
 		lo := new(big.Int).Neg(new(big.Int).Add(fee, value))
 		hi := new(big.Int).Neg(fee)
 		if t.Meta["to"] == from {
